@@ -349,3 +349,86 @@ Proof.
       f_equal. lia.
     + rewrite app_nth2 by lia. unfold zeros. now rewrite nth_repeat_false.
 Qed.
+
+(** * bit-by-bit reading of the Slice result (the wording of the property) *)
+Lemma bitz_flat_tb ws q : 0 <= q -> bitz (flat ws) q = tb ws q.
+Proof. intros Hq. unfold bitz. rewrite nth_flat_tb. f_equal. lia. Qed.
+
+Theorem Slice_bitwise ws from to : words_ok ws -> 0 <= from <= to -> to <= 64 * zlen ws ->
+  exists r, Slice ws from to = Some r /\ zlen r = cdiv64 (to - from) /\
+    (forall j, 0 <= j < to - from -> bitz (flat r) j = bitz (flat ws) (from + j)) /\
+    (forall j, to - from <= j -> bitz (flat r) j = false).
+Proof.
+  intros Hws Hft Hto. destruct (Slice_bits ws from to Hws Hft Hto) as (r & E & O & L & T).
+  exists r. split; [exact E|]. split; [exact L|]. split; intros j Hj.
+  - rewrite !bitz_flat_tb by lia. rewrite T by lia.
+    destruct (Z.ltb_spec j (to - from)); [reflexivity|lia].
+  - rewrite bitz_flat_tb by lia. rewrite T by lia.
+    destruct (Z.ltb_spec j (to - from)); [lia|reflexivity].
+Qed.
+
+(** * the boolean checkers run on the implementation's output decide the specification *)
+Lemma bools_eqb_eq a : forall b, bools_eqb a b = true <-> a = b.
+Proof.
+  induction a as [|x a IH]; intros [|y b]; cbn [bools_eqb]; try (split; [discriminate|congruence]).
+  - split; reflexivity.
+  - rewrite andb_true_iff, IH. split.
+    + intros [Hx ->]. apply Bool.eqb_prop in Hx. now subst.
+    + intros H. injection H as -> ->. split; [apply Bool.eqb_reflx|reflexivity].
+Qed.
+
+Lemma words_okb_iff ws : words_okb ws = true <-> words_ok ws.
+Proof.
+  split; [apply words_okb_ok|]. unfold words_okb, words_ok. rewrite forallb_forall, Forall_forall.
+  intros H w Hw. specialize (H w Hw). unfold word_okb, word_ok in *. lia.
+Qed.
+
+Theorem spec_Join_ok_iff vs w r : spec_Join_ok vs w r = true <-> spec_Join vs w r.
+Proof.
+  unfold spec_Join_ok, spec_Join. rewrite !andb_true_iff, words_okb_iff, Z.eqb_eq, bools_eqb_eq. tauto.
+Qed.
+
+Theorem spec_Slice_ok_iff ws from to r : spec_Slice_ok ws from to r = true <-> spec_Slice ws from to r.
+Proof.
+  unfold spec_Slice_ok, spec_Slice. rewrite !andb_true_iff, words_okb_iff, Z.eqb_eq, bools_eqb_eq. tauto.
+Qed.
+
+(** * the specification determines the result: a bitmap is its bits *)
+Lemma bits64_inj a b : 0 <= a < 2^64 -> 0 <= b < 2^64 -> bits 64 a = bits 64 b -> a = b.
+Proof.
+  intros Ha Hb H. apply Z.bits_inj'. intros t Ht.
+  destruct (Z.lt_ge_cases t 64) as [Hlt|Hge].
+  - assert (E : nth (Z.to_nat t) (bits 64 a) false = nth (Z.to_nat t) (bits 64 b) false) by now rewrite H.
+    rewrite !nth_bits in E by lia. now rewrite Z2Nat.id in E by lia.
+  - rewrite <- (Z.mod_small a (2^64)), <- (Z.mod_small b (2^64)) by lia.
+    rewrite !Z.mod_pow2_bits_high by lia. reflexivity.
+Qed.
+
+Lemma app_inj_len {A} (a a' b b' : list A) :
+  length a = length a' -> a ++ b = a' ++ b' -> a = a' /\ b = b'.
+Proof.
+  revert a'. induction a as [|x a IH]; intros [|y a'] Hl H; cbn [length] in Hl; try lia.
+  - split; [reflexivity|exact H].
+  - cbn [app] in H. injection H as -> H. destruct (IH a' ltac:(lia) H) as [-> ->]. split; reflexivity.
+Qed.
+
+Lemma flat_inj a : forall b, words_ok a -> words_ok b -> flat a = flat b -> a = b.
+Proof.
+  induction a as [|x a IH]; intros [|y b] Ha Hb H.
+  - reflexivity.
+  - apply (f_equal (@length bool)) in H. rewrite !flat_length in H. cbn [length] in H. lia.
+  - apply (f_equal (@length bool)) in H. rewrite !flat_length in H. cbn [length] in H. lia.
+  - rewrite !flat_cons in H. inversion Ha; inversion Hb; subst.
+    apply app_inj_len in H. 2:{ now rewrite !bits_length. }
+    destruct H as [E1 E2]. f_equal; [apply bits64_inj; assumption|apply IH; assumption].
+Qed.
+
+Theorem spec_Join_unique vs w r r' : spec_Join vs w r -> spec_Join vs w r' -> r = r'.
+Proof.
+  intros (O & L & F) (O' & L' & F'). apply flat_inj; try assumption. rewrite F, F'. now rewrite L, L'.
+Qed.
+
+Theorem spec_Slice_unique ws from to r r' : spec_Slice ws from to r -> spec_Slice ws from to r' -> r = r'.
+Proof.
+  intros (O & L & F) (O' & L' & F'). apply flat_inj; try assumption. rewrite F, F'. now rewrite L, L'.
+Qed.
